@@ -27,7 +27,9 @@ RULE = (
     "distinct = (shape of trip / request, base skeleton tail, outcome)."
     "  Every program is also built a second time (relations that compare equal but are distinct objects) and every "
     "node of the first build is re-applied (reapply) to its twin's operand(s): the result must equal the twin and "
-    "contain the twin's locked nodes. "
+    "contain the twin's locked nodes.  SQL materializations are also re-applied (reapply) to a bare, not Select-rooted "
+    "operand taken from Select.target / skip_to, and tree-building calls (deduplication, slice, selection, "
+    "projection, materialized, Engine.conform) on the resulting locked node must return trees that contain it. "
 )
 ASSUMPTIONS = [
     "leaf and materialization names are unique within a case, so (type, name) identifies a locked node",
@@ -166,6 +168,51 @@ def run_case(case):
                 if r != t and not isinstance(x, R.MarkerRelation):
                     # same operation on an equal operand: an equal relation
                     out["violations"].append({"kind": "reapply_result_not_equal_to_twin", "detail": f"{what}: {short(r, 200)} vs {short(t, 200)}"})
+        # ---- markers re-applied to a bare operand: Select.target / skip_to are public attributes, and
+        # marker.reapply(target) is the public way to rebuild a marker over another operand (the
+        # Processor does it); the resulting Materialization / Transfer-with-payload is a locked node
+        # whose operand is NOT Select-rooted.  Tree-building calls on it must keep it as it is.
+        from lsst.daf.relation import sql as _sql2
+
+        nbare = 0
+        for sub, x in b.nodes:
+            if nbare >= 3 or not isinstance(x.engine, _sql2.Engine):
+                continue
+            mat = next((n for n in interp.walk(x) if isinstance(n, R.Materialization) and isinstance(n.engine, _sql2.Engine)), None)
+            if mat is None:
+                continue
+            core = mat.target
+            while isinstance(core, _sql2.Select):
+                core = core.skip_to if core.skip_to is not core.target and not isinstance(core.skip_to, _sql2.Select) else core.target
+            if isinstance(core, (R.MarkerRelation, R.LeafRelation)):
+                continue
+            try:
+                mb = mat.reapply(core)
+            except R.RelationalAlgebraError:
+                continue
+            except Exception as exc:  # noqa: BLE001
+                out["violations"].append({"kind": "reapply_raised", "detail": f"{model.show(sub)}: materialization re-applied to {short(core, 120)}: {exc_str(exc)}"})
+                continue
+            if mb is mat or not isinstance(mb, R.Materialization):
+                continue
+            nbare += 1
+            calls = [("without_duplicates()", lambda r: r.without_duplicates()), ("[0:3]", lambda r: r[0:3]),
+                     ("conform", lambda r: r.engine.conform(r)), ("materialized(again)", lambda r: r.materialized(name="again_bare"))]
+            if mb.columns:
+                t0 = sorted(mb.columns, key=str)[0]
+                calls.append(("with_rows_satisfying", lambda r, t0=t0: r.with_rows_satisfying(R.ColumnExpression.reference(t0).ge(R.ColumnExpression.literal(0)))))
+                calls.append(("with_only_columns", lambda r, t0=t0: r.with_only_columns({t0})))
+            for cname, call in calls:
+                try:
+                    res = call(mb)
+                except R.RelationalAlgebraError:
+                    continue
+                except Exception as exc:  # noqa: BLE001
+                    out["violations"].append({"kind": "call_on_bare_materialization_raised", "detail": f"{model.show(sub)}: {cname} on {short(mb, 160)}: {exc_str(exc)}"})
+                    continue
+                c["calls_on_bare_markers_checked"] = c.get("calls_on_bare_markers_checked", 0) + 1
+                if not any(n is mb for n in interp.walk(res)):
+                    out["violations"].append({"kind": "locked_node_rewritten", "detail": f"{model.show(sub)}: {cname} on a materialization re-applied to a bare operand returned {short(res, 300)}, which no longer contains that node (payload-carrying nodes must never be copied)"})
         # ---- content of root round trips
         m = model.Model(case["leaves"], sql_slices=True, key_dedup=True, strict_fragile=True, ordered_engines=("it", "it2"))
         try:
